@@ -4,6 +4,7 @@ import obligations
 import re
 import provenance
 import guards
+import errprop
 import writes
 import mutations
 
@@ -669,3 +670,34 @@ RULES.append(('09.R', 'state resets: every reviewed constant write to persistent
 RULES.append(('09.M', 'collection mutations: every reviewed (function, stored collection, mutator class: add / remove / filter / empty / swap / order) triple is still present - an entry that is no longer removed, inserted or drained on one path (rules/mutations.py)', lambda F: mutations.for_property(F, 'C09', '09.M')))
 RULES.append(('09.G', 'guard census: no reviewed call of a workspace function and no reviewed mutation of a stored collection gained a controlling branch condition (an added `&& cond`, early return / continue, more specific match arm in front of an act); counts per call site, name free (rules/guards.py)', lambda F: guards.for_property(F, 'C09', '09.G')))
 RULES.append(('09.W', 'field assignments: every reviewed (function, Type.field) direct assignment is still made - state that a path no longer updates, or updates only conditionally (get_or_insert for an overwrite); generalises NN.R (rules/writes.py)', lambda F: writes.for_property(F, 'C09', '09.W')))
+
+def r09L(F):
+	"""the per-monitor pending_monitor_updates lock is held from ChannelMonitor::update_monitor through the persister call to the bookkeeping of its
+	result (MonitorHolder docs): a completion reported by another thread while the persister call is still running must wait, otherwise it finds
+	the update id not yet recorded, and the id pushed afterwards stays pending forever - no MonitorEvent::Completed is ever produced for that
+	channel again and every held message stays held (lock-scope rule: acquisition dominates the act and no release of that guard lies between)"""
+	fn = 'lightning::chain::chainmonitor::ChainMonitor::update_channel_internal'
+	fu = F.func(fn)
+	persist = set(fu.call_blocks(lambda p: p.endswith('Persist::update_persisted_channel')))
+	upd = set(fu.call_blocks(lambda p: p.endswith('ChannelMonitor::update_monitor') or p.endswith('::update_monitor')))
+	ex = Expr(fu)
+	push = set()
+	for b, ci in fu.calls():
+		if norm(ci.get('f') or '').endswith('Vec::push') and ci['args']:
+			import mutations
+			rf = mutations.root_field(ex.of_operand(ci['args'][0]), ex)
+			if rf and rf.endswith('.pending_monitor_updates'):
+				push.add(b)
+	out = []
+	out += P_held_across(F, '09.L', fu, 'pending_monitor_updates', persist, 'the persister call (update_persisted_channel)', 'persist-under-pending-lock')
+	out += P_held_across(F, '09.L', fu, 'pending_monitor_updates', upd, 'ChannelMonitor::update_monitor', 'update-under-pending-lock')
+	out += P_held_across(F, '09.L', fu, 'pending_monitor_updates', push, 'recording the in-progress update id', 'record-under-pending-lock')
+	# one critical section: the acquisition that covers the persister call is the one whose guard receives the push
+	locks = guards_of_lock(fu, 'pending_monitor_updates')
+	n = len([1 for L, G in locks if any(fu.dominates(L, p) for p in persist)])
+	ok = n == 1 and len(locks) == 1
+	out.append(Result('09.L', ok, ('ok:' if ok else 'split:') + 'one-critical-section', 'update_channel_internal takes the pending_monitor_updates lock once (%d acquisition(s)): update, persist and bookkeeping form one critical section' % len(locks), len(locks), where=F.where(fn)))
+	return out
+
+RULES.append(('09.L', 'lock scope: the pending_monitor_updates lock is held from update_monitor through the persister call to the recording of its result (acquisition dominates, no release in between, one critical section)', r09L))
+RULES.append(('09.X', 'error propagation: once a branch has found a Result of the function\'s own error type to be Err, no path returns Ok(..) or an unrelated value - a failed monitor write is not reported as Completed (value-refined walk, rules/errprop.py)', lambda F: errprop.rule(F, '09.X', r'util/persist\.rs$|chain/chainmonitor\.rs$', 3, exceptions={'list_paginated_with_values': 'a key removed between listing and reading is not part of the page (NotFound only; every other error is returned)', 'list': 'a directory entry that vanished between read_dir and the check is skipped / included by design', 'list_paginated_impl': 'same tolerance as list for entries deleted during the scan'})))
